@@ -88,7 +88,7 @@ def run(ctx):
         if ci % 4 == 0:
             # a long-lived builder that has just refused a query in the middle of a nested field group (and then sees
             # near-identical trees) must translate like a fresh one: what a refused call leaves behind must not show
-            hist.check(repr(cfg), lambda: I.es.ElasticsearchQueryBuilder(**cfg),
+            hist.check(repr(cfg), lambda: I.es.ElasticsearchQueryBuilder(**es.python_spelling(cfg)),
                        lambda bb, t: es.build(cfg, t, bb)[0], d, {"cfg": cfg, "tree": d},
                        poison=[es.refused_in_nested(schema)] if schema else ())
         has = any(n["c"].endswith("Operation") or n["c"] in ("Not", "Prohibit", "SearchField")
